@@ -559,8 +559,25 @@ fn run_store(m: &BTreeMap<String, String>) -> String {
     )
 }
 
-/// A process killed while `rewrite_segment_records` runs: the old segment files are already
-/// unlinked, the new file holds the records appended so far.
+/// Runs `f` while no regular file of this process may grow beyond `limit` bytes (RLIMIT_FSIZE with
+/// SIGXFSZ ignored: the write that would cross the limit is cut short and fails with EFBIG).  This
+/// stops a multi-write operation of the real crate at a chosen byte, deterministically.
+fn with_fsize_limit<T>(limit: u64, f: impl FnOnce() -> T) -> T {
+    unsafe {
+        libc::signal(libc::SIGXFSZ, libc::SIG_IGN);
+        let mut old = libc::rlimit { rlim_cur: 0, rlim_max: 0 };
+        libc::getrlimit(libc::RLIMIT_FSIZE, &mut old);
+        let new = libc::rlimit { rlim_cur: limit as libc::rlim_t, rlim_max: old.rlim_max };
+        libc::setrlimit(libc::RLIMIT_FSIZE, &new);
+        let r = f();
+        libc::setrlimit(libc::RLIMIT_FSIZE, &old);
+        r
+    }
+}
+
+/// The truncation repair (`recover_filesystem_store(Writable)` on a store with an uncommitted tail)
+/// interrupted at a chosen byte of the file it is writing: whatever is on disk afterwards must still
+/// recover every acknowledged transaction.
 fn run_rewrite(m: &BTreeMap<String, String>) -> String {
     let log = match store_log_from(m) {
         Ok(l) => l,
@@ -576,40 +593,53 @@ fn run_rewrite(m: &BTreeMap<String, String>) -> String {
     let rw = recover_filesystem_store(&dir, RecoveryAccessMode::Writable);
     let repaired = fs::read(seg_path(&dir)).unwrap_or_default();
     let rends = record_ends(&repaired);
-    let mut states = Vec::new();
-    // kill points: after the unlink (empty / missing file) and after every appended record
+    // stop points: before the first byte, at every record end of the rewritten file, and inside records
     let mut cuts: Vec<usize> = vec![0];
-    cuts.extend(rends.iter().map(|(e, _)| *e));
+    for (e, _) in &rends {
+        for d in [0usize, 9, 40] {
+            if e + d < repaired.len() || d == 0 {
+                cuts.push(e + d);
+            }
+        }
+    }
+    cuts.sort();
+    cuts.dedup();
+    let mut states = Vec::new();
+    let mut ondisk = Vec::new();
     for c in &cuts {
-        make_root(&dir, &repaired[..*c], Some(&log.ledger), None);
+        make_root(&dir, seg, Some(&log.ledger), None);
+        let stopped = with_fsize_limit(*c as u64, || recover_filesystem_store(&dir, RecoveryAccessMode::Writable));
+        let left = fs::read(seg_path(&dir)).unwrap_or_default();
         let r = recover_filesystem_store(&dir, RecoveryAccessMode::ReadOnly);
-        let s = report_res(&r);
         match &r {
             Ok(rep) => {
                 let got = report_txs(rep);
-                if got.len() < acked.len() {
+                if got.len() < acked.len() || !is_prefix(&acked, &got) {
                     fails.push(format!(
-                        "wal:repair-rewrite-not-crash-atomic[records_written={},recovered={},acknowledged={}]",
-                        rends.iter().filter(|(e, _)| e <= c).count(),
+                        "wal:repair-rewrite-not-crash-atomic[stopped_at_byte={c},repair={},recovered={},acknowledged={}]",
+                        if stopped.is_ok() { "ok" } else { "err" },
                         got.len(),
                         acked.len()
                     ));
                 }
             }
-            Err(e) => fails.push(format!("wal:repair-rewrite-kill-unrecoverable[{}]", rec_class(e))),
+            Err(e) => fails.push(format!("wal:repair-rewrite-stop-unrecoverable[stopped_at_byte={c},{}]", rec_class(e))),
         }
-        states.push(s);
+        states.push(report_res(&r));
+        ondisk.push(if left == repaired[..(*c).min(repaired.len())] { "prefix" } else if left == seg { "old" } else { "other" });
     }
     let _ = fs::remove_dir_all(&dir);
     format!(
-        "len={} cutseg={} before={} after={} repaired={} rends={} kills={} oracle={}",
+        "len={} cutseg={} before={} after={} repaired={} rends={} stops={} kills={} ondisk={} oracle={}",
         seg.len(),
         tohex(seg),
         report_res(&before),
         report_res(&rw),
         tohex(&repaired),
         ends_str(&rends),
+        cuts.iter().map(|c| c.to_string()).collect::<Vec<_>>().join(","),
         states.join(";"),
+        ondisk.join(","),
         uniq(fails)
     )
 }
@@ -838,6 +868,8 @@ fn classify_lsn(fails: &mut Vec<String>, root: &Path, what: &str) {
 struct Obs {
     /// submission index -> (submission id, outcome; the volatile staging detail of Pending removed)
     subs: BTreeMap<usize, (Hash, String)>,
+    /// number of witnessed submissions (also those whose id the caller never learned)
+    witnessed: usize,
     state_root: Hash,
     frontier_tick: u64,
     committed: usize,
@@ -886,7 +918,8 @@ fn observe(host: &mut TrustedRuntimeHost, ids: &BTreeMap<usize, Hash>) -> Result
         .map_err(|e| format!("recover_read_only.{}", wal_err(&e)))?
         .certificate
         .committed_transactions_replayed as usize;
-    Ok((Obs { subs, state_root, frontier_tick, committed }, global_tick))
+    let witnessed = host.runtime().witnessed_submission_count();
+    Ok((Obs { subs, witnessed, state_root, frontier_tick, committed }, global_tick))
 }
 
 #[derive(Clone, Debug)]
@@ -1052,7 +1085,7 @@ impl HostRun {
             if failed {
                 let ids = self.ids.clone();
                 let (o, _) = observe(self.host.as_mut().ok_or("closed")?, &ids)?;
-                if o.subs != b.subs || o.state_root != b.state_root || o.committed != b.committed {
+                if o.subs != b.subs || o.witnessed != b.witnessed || o.state_root != b.state_root || o.committed != b.committed {
                     self.fails.push(format!("wal:failed-operation-left-visible-state[{op:?}]"));
                 }
             }
